@@ -3,7 +3,7 @@
    evaluator.rs, the handlers of lsp/references.rs); vocabulary: spec/NavSpec.v. *)
 From Coq Require Import List NArith Arith Bool Permutation.
 Import ListNotations.
-From Mos Require Import model.SymGraph model.Analysis spec.NavSpec proofs.SymGraphProofs proofs.NavProofs.
+From Mos Require Import model.SymGraph model.Analysis spec.NavSpec proofs.SymGraphProofs proofs.NavProofs proofs.GreedyProofs.
 
 (* Within one pass: for every graph, scope, path (dotted, `super`, bubbling outward any number of scopes) the
    occurrence's last identifier is recorded as a usage of exactly the node `query` handed to the evaluator for that
@@ -98,6 +98,27 @@ Theorem C16_history_witness_repaired : forall a a',
   run_passes 5 history = Some a -> Permutation a a' -> go_to_definition a' 0 3 5 = Some inner_site.
 Proof. exact history_repaired. Qed.
 Print Assumptions C16_history_witness_repaired.
+
+(* ---- known finding F-C16c: the server's greedy analysis ---- *)
+(* The table of the analysed run is the build's table plus the edges of definitions that only exist in untaken
+   branches / uninvoked macro bodies.  foo: nop / { .if 0 { foo: nop } / .word foo }: the analysed run binds
+   `.word foo` to the untaken foo (node 3), the build to the outer one (node 1). *)
+Theorem C16_greedy_untaken_definition_refuted :
+  query 5 gw_table 2 [gw_foo] = Some (Some 3) /\ query 5 (without gw_extra gw_table) 2 [gw_foo] = Some (Some 1) /\
+  Known_greedy_untaken_definition gw_extra gw_table [gw_foo] = true.
+Proof. exact greedy_refuted. Qed.
+Print Assumptions C16_greedy_untaken_definition_refuted.
+
+(* Outside the class -- no identifier of the path is the name of a greedy-only definition -- every lookup of the
+   analysed run takes exactly the steps it takes on the build's table (all tables, all paths, all scopes; the
+   greedy-only definitions are new nodes). *)
+Theorem C16_greedy_agrees_with_build : forall is_extra g' p,
+  Known_greedy_untaken_definition is_extra g' p = false ->
+  forall scope,
+  (forall e, In e g' -> is_extra e = true -> forall n, node_of (without is_extra g') n \/ n = scope -> e_dst e <> n) ->
+  forall fuel, query_traversal_steps fuel g' scope p = query_traversal_steps fuel (without is_extra g') scope p.
+Proof. exact greedy_agrees. Qed.
+Print Assumptions C16_greedy_agrees_with_build.
 
 (* non-vacuity: a dotted path that needs bubbling (T.U.a looked up two scopes below T's parent) *)
 Example C16_example_bubbling :
